@@ -45,9 +45,10 @@ def readReason (w : List Entry) (k : Key) (lo hi : Int) (asc : Bool) (rows : Lis
   else if !rowsSound w k lo hi rows then "wrong-value"
   else "missing-timestamp"
 
-/-- operations C01 speaks about: writes, reads, snapshot sub-steps, compactions of adjacent files -/
+/-- operations C01 speaks about: writes, reads, snapshot sub-steps (also failing snapshot attempts
+    and their retries), compactions of adjacent files -/
 def inScope : Op → Bool
-  | .write _ | .read .. | .snapBegin | .snapStep | .snapTo _ | .compact .. | .files => true
+  | .write _ | .read .. | .snapBegin | .snapFail | .snapStep | .snapTo _ | .compact .. | .files => true
   | _ => false
 
 /-- `none` = the statement holds on this trace; `some reason` = where it fails.
